@@ -25,3 +25,5 @@ import DateutilVerif.Properties.TzGen   -- translator tie (wt-iso): obligations 
 #print axioms C08.gen_eq_model_tzname
 #print axioms C08.gen_eq_model_fromutc
 #print axioms C08.gen_eq_model_dst_base_offset
+#print axioms C08.tzstr_render
+#print axioms C08.tzstr_string_posix
